@@ -95,7 +95,10 @@ def run(ctx):
             ('the checker accepts %s, which the interpreter rejects with TypeMismatch' % only_ck) if only_ck else '',
             ('the interpreter evaluates %s, which the checker rejects' % only_rt) if only_rt else '') if x), loc='%s:%d' % (fx.fns[lob]['file'], fx.fns[lob]['line']) if lob in fx.fns else None)
     # kernels: arm X uses machine op X on (a, b)
-    MACH = {'Add': {'Add', 'AddWithOverflow'}, 'Sub': {'Sub', 'SubWithOverflow', 'checked_sub'}, 'Mul': {'Mul', 'MulWithOverflow'}, 'Div': {'Div'}, 'Mod': {'Rem'},
+    # the std `checked_*` forms are the same machine operation with the overflow reported (and `wrapping_rem` differs from
+    # `%` only in not trapping on MIN % -1, whose remainder is 0); the Euclidean / wrapping / saturating forms are not
+    MACH = {'Add': {'Add', 'AddWithOverflow', 'checked_add'}, 'Sub': {'Sub', 'SubWithOverflow', 'checked_sub'}, 'Mul': {'Mul', 'MulWithOverflow', 'checked_mul'},
+            'Div': {'Div', 'checked_div'}, 'Mod': {'Rem', 'checked_rem', 'wrapping_rem'},
             'Lt': {'Lt', 'lt'}, 'Le': {'Le', 'le'}, 'Gt': {'Gt', 'gt'}, 'Ge': {'Ge', 'ge'}, 'And': {'BitAnd', 'bitand'}, 'Or': {'BitOr', 'bitor'}, 'Xor': {'BitXor', 'bitxor'}}
     for fid in sorted(k for k in fx.fns if re.search(r'trust_runtime::eval::ops::(numeric_arith|bit_op|ord_cmp|numeric_cmp|time_cmp_values|logical_or_bitwise)$', k)):
         fn = F(fx.fns[fid])
@@ -136,7 +139,7 @@ def run(ctx):
                         if s[0] == 'A' and s[2][0] == 'bin':
                             found.add(s[2][1])
                     nm = fn.call_name(rb) or ''
-                    mm = re.search(r'::(checked_sub|checked_add|checked_mul|lt|le|gt|ge|bitand|bitor|bitxor|partial_cmp)$', nm)
+                    mm = re.search(r'::(checked_sub|checked_add|checked_mul|checked_div|checked_rem|wrapping_rem|lt|le|gt|ge|bitand|bitor|bitxor|partial_cmp)$', nm)
                     if mm:
                         found.add(mm.group(1))
                 found_rel = {f for f in found if f in set().union(*MACH.values())}
